@@ -62,8 +62,8 @@ def _is_pure_call(c: ast.Call) -> bool:
 def _pure_expr(e: ast.AST) -> bool:
     for x in ast.walk(e):
         if isinstance(x, (ast.Await, ast.Yield, ast.YieldFrom, ast.NamedExpr, ast.Lambda,
-                          ast.ListComp, ast.SetComp, ast.DictComp, ast.GeneratorExp, ast.Starred)):
-            return False
+                          ast.GeneratorExp, ast.Starred)):
+            return False        # (a generator expression is lazy: when it runs is not where it is written)
         if isinstance(x, ast.Call) and not _is_pure_call(x):
             return False
     return True
@@ -436,6 +436,15 @@ def _effect_nodes_between(stmts):
 
 
 def _post_order(node):
+    """Nodes in (approximate) evaluation order: operands before the operation, the value of an
+    assignment before its targets, the iterable of a for loop before its body."""
+    if isinstance(node, (ast.Assign, ast.AnnAssign, ast.AugAssign)):
+        if getattr(node, 'value', None) is not None:
+            yield from _post_order(node.value)
+        for t in (node.targets if isinstance(node, ast.Assign) else [node.target]):
+            yield from _post_order(t)
+        yield node
+        return
     for ch in ast.iter_child_nodes(node):
         yield from _post_order(ch)
     yield node
@@ -524,7 +533,10 @@ def inline_new_locals(fn, ref_names) -> int:
                     # uses inside a loop are fine only if that loop is effect-free
                     for s_ in rest:
                         for lp in [y for y in ast.walk(s_) if isinstance(y, (ast.For, ast.While, ast.AsyncFor))]:
-                            if any(any(n is l for n in ast.walk(lp)) for l in loads) and \
+                            in_body = [n for part in (lp.body + lp.orelse) for n in ast.walk(part)]
+                            if isinstance(lp, ast.While):
+                                in_body += list(ast.walk(lp.test))
+                            if any(any(n is l for n in in_body) for l in loads) and \
                                     any(_is_barrier(z, expr_names) and not (
                                         relaxed and not (isinstance(z, ast.Name) and z.id in expr_names))
                                         for z in ast.walk(lp)):
